@@ -61,7 +61,78 @@ def nontrivial(c, o, st):
     return False
 
 
-t2, t3 = seqprop.make_module("C03", ["foreign", "rollback"], make_cases, nontrivial)
+t2, _t3 = seqprop.make_module("C03", ["foreign", "rollback"], make_cases, nontrivial)
+
+
+def side_outputs(rep):
+    """Real API only (the DSL has no statement for it): user code writes a file of its own - not through
+    build_file - into a directory that the previous build created and that the virtual view has
+    already looked at; a later build_file for that directory's path must refuse (IsADirectoryError)
+    and the file must survive the build, whether it commits or rolls back."""
+    import logging
+    import os
+    import shutil
+    import tempfile
+    from .. import common
+    common.import_repo()
+    logging.disable(logging.CRITICAL)
+    from file_builder import FileBuilder
+    fails = []
+    base = tempfile.mkdtemp(prefix="c03s_", dir=common.WORK)
+    try:
+        for probe in ("list_dir", "is_dir", "exists", "walk", "none"):
+            for ending in ("commit", "rollback"):
+                root = os.path.join(base, probe + "_" + ending)
+                os.makedirs(root)
+                cache = os.path.join(root, "cache")
+                work, out = os.path.join(root, "work"), os.path.join(root, "work", "out")
+                note = os.path.join(out, "notes.txt")
+
+                def w(b, p):
+                    open(p, "w").write("x")
+
+                FileBuilder.build(cache, "n", lambda b: b.build_file(os.path.join(out, "a.txt"), "w", w))
+                seen = {}
+
+                def main(b):
+                    if probe == "list_dir":
+                        b.list_dir(root)
+                    elif probe == "is_dir":
+                        b.is_dir(out)
+                    elif probe == "exists":
+                        b.exists(out)
+                    elif probe == "walk":
+                        b.walk(root)
+                    os.makedirs(out, exist_ok=True)
+                    with open(note, "w") as f:
+                        f.write("mine")
+                    st = os.stat(note)
+                    seen["id"] = (st.st_ino, st.st_mtime_ns)
+                    try:
+                        b.build_file(out, "w", w)
+                        seen["res"] = "built"
+                    except OSError as e:
+                        seen["res"] = type(e).__name__
+                    if ending == "rollback":
+                        raise KeyError("stop")
+                    return 0
+                try:
+                    FileBuilder.build(cache, "n", main)
+                except KeyError:
+                    pass
+                ok = os.path.isfile(note) and open(note).read() == "mine" and (os.stat(note).st_ino, os.stat(note).st_mtime_ns) == seen.get("id")
+                rep.case(key=("side", probe, ending), nontrivial=True)
+                if not ok:
+                    fails.append({"oracle": "a file written by user code into a directory of the previous build survives", "probe": probe,
+                                  "ending": ending, "build_file_result": seen.get("res"), "exists": os.path.exists(note)})
+    finally:
+        shutil.rmtree(base, ignore_errors=True)
+        logging.disable(logging.NOTSET)
+    return fails
+
+
+def t3(rep, tier, budget=1):
+    return _t3(rep, tier, budget) + side_outputs(rep)
 RULE = ("generated histories with foreign files and directories planted inside directories of outputs, at output positions and next "
         "to the cache file, across commits, rollbacks, swaps and clean; non-trivial when a foreign file lay inside a builder-created "
         "directory or at a target path while a build or clean ran")
